@@ -443,6 +443,9 @@ func scenarios() []scenario {
 		// a peer that pre-sent every future round: one Accept finalises several rounds
 		add("two-follower", "4", 2, 0, -1, "F3 F2 F1 F0", d+" R")
 		add("multi", "PPP", 2, 0, -1, "F2 F1 F0", d+" R")
+		// Stop (and a peer's abort notice) while an Accept is emitting more than the channel holds
+		add("two-follower", "4", 2, 0, 3, "F3 F2 F1 F0", "S", d+" R")
+		add("two-follower", "4", 2, 0, 3, "F3 F2 F1 F0", "Aabort", d+" R")
 		// the same with the constructor's first message still in the channel when the loop starts (README usage)
 		l = append(l, scenario{Name: "multi/PPP/n2/undrained[F2 F1 F0|" + d + " R]@-1", Kind: "multi", Spec: "PPP", N: 2, Undrained: true, Threads: []string{"F2 F1 F0", d + " R"}, Bound: -1})
 	}
